@@ -71,6 +71,7 @@ func (m *collection) runMerger() {
 
 OUTER:
 	for {
+		verifGate("merger.loop", m)
 		atomic.AddUint64(&m.stats.TotMergerLoop, 1)
 
 		// ---------------------------------------------
@@ -120,6 +121,7 @@ OUTER:
 
 					// Awake writers waiting for space in stackDirtyTop.
 					m.stackDirtyTopCond.Broadcast()
+					verifTrace("merger.ingest", m, mergeAll)
 				},
 				false) // The collection level lock needs to be acquired.
 
@@ -277,9 +279,11 @@ func (m *collection) mergerMain(stackDirtyMid, stackDirtyBase *segmentStack,
 		mergedStackDirtyMid.addRef()
 		stackDirtyMid = mergedStackDirtyMid
 
+		verifGate("merger.beforeSwap", m)
 		m.m.Lock()
 		stackDirtyMidPrev := m.stackDirtyMid
 		m.stackDirtyMid = mergedStackDirtyMid
+		verifTrace("merger.swap", m)
 		m.m.Unlock()
 
 		stackDirtyMidPrev.Close()
@@ -288,9 +292,11 @@ func (m *collection) mergerMain(stackDirtyMid, stackDirtyBase *segmentStack,
 		if stackDirtyMid != nil && stackDirtyMid.isEmpty() {
 			// Do this only for idle-compactions.
 			atomic.AddUint64(&m.stats.TotMergerEmptyDirtyMid, 1)
+			verifGate("merger.beforeSwap", m)
 			m.m.Lock() // Allow an empty stackDirtyMid to kick persistence.
 			stackDirtyMidPrev := m.stackDirtyMid
 			m.stackDirtyMid = stackDirtyMid
+			verifTrace("merger.skip", m)
 			m.m.Unlock()
 
 			stackDirtyMidPrev.Close()
@@ -323,6 +329,7 @@ func (m *collection) mergerNotifyPersister() {
 		return
 	}
 
+	verifGate("merger.beforeHandoff", m)
 	m.m.Lock()
 
 	if m.stackDirtyBase == nil && m.stackDirtyMid != nil {
@@ -343,8 +350,10 @@ func (m *collection) mergerNotifyPersister() {
 		m.waitDirtyOutgoingCh = make(chan struct{})
 
 		m.stackDirtyBaseCond.Broadcast()
+		verifTrace("merger.handoff", m)
 	} else {
 		atomic.AddUint64(&m.stats.TotMergerLowerLevelNotifySkip, 1)
+		verifTrace("merger.handoffskip", m)
 	}
 
 	var waitDirtyOutgoingCh chan struct{}
